@@ -206,6 +206,51 @@ claim('C11', 'proof',
       'Lean 4 proof (quadratic form at (x,u,-(Ax+Bu)); closed infeasibility argument) + PICOS-evaluation correspondence',
       'DESIGN.md section 5 C11')
 
+claim('C12', 'proof',
+      'Lean 4 theorems C12_* over Matrix R: the epigraph block [[Z, UL],[L^T U^T, I]] >= 0 is Z >= U H U^T (Schur complement, '
+      'L L^T = H), every feasible point has tr Z >= tr(U H U^T) with Z = U H U^T feasible, and c - 2 tr(U G^T) + tr(U H U^T) is '
+      'exactly the documented quadratic cost; with pure Tikhonov the LMI problem has the EDMD minimiser (C06); two-norm '
+      'block: soundness (|Ux| <= gamma |x|). Correspondence: objective and blocks of the real problems for all 7 '
+      'inv_methods via PICOS evaluation. Oracle: cvxopt fits (both families, all reg methods), competitor search on the '
+      'documented cost, agreement with Edmd.',
+      'Partial: nuclear-norm epigraph only one direction (C12_nuclear_partial), two-norm completeness not proved; numeric '
+      "factorisations validated (L L^T = H) not proved; 'optimal' = optimal up to solver tolerance (competitor threshold "
+      '2e-5 relative). Repaired defect F-dmdc.',
+      'Lean 4 proof (Schur complement + trace algebra) + PICOS-evaluation correspondence + competitor-search oracle',
+      'DESIGN.md section 5 C12')
+claim('C13', 'other',
+      'Lean 4 theorems C13_* over Matrix C about the formula A_r = V Lambda V^+: eigenpairs, every mode a non-zero '
+      'eigenvector, rank <= number of modes, projected modes give Q A~ Q^H, non-zero spectrum contained in the reported '
+      'eigenvalues. No exact executable model exists for LAPACK factors, so the tie to the code is a numeric validation '
+      'of the hypotheses (left-invertible modes) and of every conclusion (eigenpair residual, rank, spectrum equality, '
+      'real coef_) on the fitted attributes of Dmd / Dmdc for every mode type and truncation rule.',
+      'scipy.linalg.eig / lstsq / svd trusted and validated; conjugate-closure of the eigenpairs (real(..) loses nothing) '
+      'validated numerically, not proved; multiplicities not proved.',
+      'Lean 4 theorems about the reconstruction formula + numeric validation of hypotheses and conclusions on the implementation',
+      'DESIGN.md section 5 C13')
+claim('C17', 'other',
+      'Lean 4 theorems C17_*: weight_only inner product = (1/D) sum cos(<x-y, w_j>) and unit norm (exact identities), the '
+      'offset-average integral for weight_offset, the KernelApproxLiftingFn layout, and the stream model of the seed '
+      'plumbing (RandomState instance: disjoint positions; integer seed: weights and offsets read the same positions - '
+      'finding F-rff). Correspondence: transform vs the Lean Float evaluation of the feature-map formula given the '
+      'fitted (W, b); output width; kernel -> distribution table; which draws replay RandomState(seed). Oracle: seeded '
+      'fixed-size statistical test of unbiasedness against the closed-form kernels.',
+      'Not provable here and trusted: scipy samplers have the named distributions, the Fourier pairs, the Gaussian '
+      'characteristic function, O(1/sqrt(D)) concentration. Known finding F-rff (integer seeds).',
+      'Lean 4 proof of the exact identities + Float correspondence + statistical oracle (partial)',
+      'DESIGN.md section 5 C17')
+claim('C18', 'proof',
+      'Lean 4 theorems C18_* about the exact-rational model of _feature_range (plain / symmetric), linspace, the grid in '
+      'meshgrid order (contains exactly the Cartesian product, k^n points, one coordinate per feature), range scaling of '
+      'unit-cube samples, the RBF layout (generic rbf kind), the default-offset table and the stream model (finding '
+      'F-unif). Correspondence: ranges and GridCenters (values and order) vs the rational model, shapes / range '
+      'membership / DataCenters for all 7 generators incl. counts 1, QMC engines, both seed types; RbfLiftingFn.transform '
+      'vs the Lean Float formula for all 7 radial functions, offsets incl. None, callables.',
+      'Sampling distributions of the random generators trusted; KMeans / GaussianMixture centres checked for shape only; '
+      'known finding F-unif (integer seed couples features); repaired F-gauss.',
+      'Lean 4 proof over exact rationals + exact / Float correspondence + independence probe',
+      'DESIGN.md section 5 C18')
+
 ALL = [f'C{i:02d}' for i in range(1, 21)]
 
 
